@@ -76,6 +76,13 @@ def service_cases(tier, inst):
     for ms in P.stream_multisets(inst, K, n, cps=(1, 2), dts=(0, 1)):
         for labels in P.label_schemes(len(ms), 2):
             yield {"streams": ms, "zones": labels}
+    # identical parallel streams that also share their NAME (one zone, and next to a second zone)
+    types = A.stream_types(inst, K, (1, 2), (0, 1), True)
+    for i, t in enumerate(types):
+        yield {"streams": [t, t], "zones": ["A", "A"], "names": ["S", "S"]}
+        other = types[(i * 7 + 3) % len(types)]
+        yield {"streams": [t, t, other], "zones": ["A", "A", "B"], "names": ["S", "S", "S"]}
+        yield {"streams": [t, t], "zones": ["A/T1", "A/T2"], "names": ["S", "S"]}
     # zero-crossing family: the same lattice translated so that it contains 0.0 and a negative temperature
     for ms in P.stream_multisets(A.zero_inst(inst), K, 2, cps=(1, 2), dts=(0, 1)):
         yield {"streams": ms, "zones": ["A"] * len(ms)}
@@ -100,7 +107,7 @@ def service_cases(tier, inst):
 
 def service_run(case, res: Result):
     streams = [tuple(s) for s in case["streams"]]
-    prob = A.problem(streams, case["zones"])
+    prob = A.problem(streams, case["zones"], names=case.get("names"))
     out, master = S.run(prob)
     recs = S.records(out)
     names = S.record_names(out)
